@@ -97,6 +97,28 @@ fn seed_of<R: SeedableRng>(bytes: &[u8]) -> Option<R::Seed> {
     Some(s)
 }
 
+/// The results buffer handed to BlockRngCore::generate holds OTHER old contents on every call: generate overwrites
+/// all of it, so what it held before is no input.
+static GARBAGE: std::sync::atomic::AtomicU64 = std::sync::atomic::AtomicU64::new(0x243F6A8885A308D3);
+fn garbage64(r: &mut [u64]) {
+    let mut x = GARBAGE.fetch_add(0x9E3779B97F4A7C15, Ordering::Relaxed);
+    for w in r.iter_mut() {
+        x ^= x << 13;
+        x ^= x >> 7;
+        x ^= x << 17;
+        *w = x;
+    }
+}
+fn garbage32(r: &mut [u32]) {
+    let mut x = GARBAGE.fetch_add(0x9E3779B97F4A7C15, Ordering::Relaxed);
+    for w in r.iter_mut() {
+        x ^= x << 13;
+        x ^= x >> 7;
+        x ^= x << 17;
+        *w = (x >> 16) as u32;
+    }
+}
+
 static ROUTE: std::sync::atomic::AtomicUsize = std::sync::atomic::AtomicUsize::new(0);
 /// alternates between the two call routes (see common_rng_methods)
 pub fn via_trait() -> bool {
@@ -153,7 +175,13 @@ pub trait EqYes {
 }
 impl<'a, T: PartialEq> EqYes for EqProbe<'a, T> {
     fn maybe_eq(&self) -> Option<bool> {
-        Some(self.0 == self.1)
+        // both operators, in both directions: they are one relation (a `ne` overridden inconsistently with `eq`, or
+        // an asymmetric `eq`, is recorded as a panic of the comparison so that it cannot go unnoticed)
+        let e = self.0 == self.1;
+        if (self.0 != self.1) == e || (self.1 == self.0) != e {
+            panic!("== / != are inconsistent: a == b is {}, a != b is {}, b == a is {}", e, self.0 != self.1, self.1 == self.0);
+        }
+        Some(e)
     }
 }
 pub trait EqNo {
@@ -306,6 +334,7 @@ impl Dyn for DHc128Core {
     eq_method!();
     fn generate(&mut self) -> Option<Value> {
         let mut r = [0u32; 16];
+        garbage32(&mut r);
         self.0.generate(&mut r);
         Some(Value::Array(r.iter().map(|&x| u32j(x)).collect()))
     }
@@ -317,6 +346,7 @@ impl Dyn for DIsaacCore {
     serde_methods!();
     fn generate(&mut self) -> Option<Value> {
         let mut r = <rand_isaac::isaac::IsaacCore as BlockRngCore>::Results::default();
+        garbage32(r.as_mut());
         self.0.generate(&mut r);
         Some(Value::Array(r.as_ref().iter().map(|&x| u32j(x)).collect()))
     }
@@ -328,6 +358,7 @@ impl Dyn for DIsaac64Core {
     serde_methods!();
     fn generate(&mut self) -> Option<Value> {
         let mut r = <rand_isaac::isaac64::Isaac64Core as BlockRngCore>::Results::default();
+        garbage64(r.as_mut());
         self.0.generate(&mut r);
         Some(Value::Array(r.as_ref().iter().map(|&x| u64j(x)).collect()))
     }
